@@ -1,26 +1,28 @@
 -------------------------------- MODULE Mutex --------------------------------
 (* Implementation-shaped specification of csync.Mutex (csync/mutex.go): one action per        *)
 (* Broadcast.HoldLock critical section and per select wake-up.  Every call is a "w" call of   *)
-(* the CsyncP monitor.  Same conventions as RWMutex.tla.                                      *)
+(* the CsyncP monitor.  Same conventions as RWMutex.tla (Fine: see there).                    *)
 EXTENDS CsyncP, Integers
 
-CONSTANTS Prog, EagerWake
+CONSTANTS Prog, EagerWake, Fine
 
 Procs == 1..Len(Prog)
 Id(p, j) == p * 100 + j
 
 VARIABLES
     locked,    \* Mutex.locked (guarded by bcast)
-    wch, pc, ip, status, ctxc, relid
+    wch, pc, ip, status, ctxc, relid,
+    rres       \* Fine: result of the call whose return is still to be logged
 
-xvars == <<locked, wch, pc, ip, status, ctxc, relid>>
+xvars == <<locked, wch, pc, ip, status, ctxc, relid, rres>>
 vars == <<xvars, pvars>>
 
 Op(p) == Prog[p][ip[p]]
 CurId(p) == Id(p, ip[p])
 
 Init ==
-    /\ PInit
+    /\ PInitF(Fine)
+    /\ rres = [p \in Procs |-> ""]
     /\ locked = FALSE
     /\ wch = [p \in Procs |-> "none"]
     /\ pc = [p \in Procs |-> "idle"]
@@ -47,12 +49,12 @@ Call(p) ==
               /\ status' = (CurId(p) :> 0) @@ status
               /\ ctxc' = [ctxc EXCEPT ![p] = FALSE]
               /\ PCall(CurId(p), "w", BlockedIds)
-              /\ UNCHANGED <<locked, wch, ip, relid>>
+              /\ UNCHANGED <<locked, wch, ip, relid, rres>>
          [] o.op = "trylock" ->
               /\ pc' = [pc EXCEPT ![p] = "trycs"]
               /\ status' = (CurId(p) :> 0) @@ status
               /\ PCall(CurId(p), "w", BlockedIds)
-              /\ UNCHANGED <<locked, wch, ip, ctxc, relid>>
+              /\ UNCHANGED <<locked, wch, ip, ctxc, relid, rres>>
          [] o.op = "rel" ->
               LET i == Id(p, o.k) IN
               IF i \in Ids /\ st[i] \in {"held", "released"}
@@ -63,16 +65,32 @@ Call(p) ==
                            /\ relid' = [relid EXCEPT ![p] = i]
                            /\ UNCHANGED ip
                       ELSE /\ PRelNoop(i) /\ Advance(p) /\ UNCHANGED <<pc, relid>>
-                   /\ UNCHANGED <<locked, wch, ctxc>>
+                   /\ UNCHANGED <<locked, wch, ctxc, rres>>
               ELSE /\ Advance(p)
-                   /\ UNCHANGED <<locked, wch, pc, status, ctxc, relid, pvars>>
+                   /\ UNCHANGED <<locked, wch, pc, status, ctxc, relid, rres, pvars>>
 
-Return(p, res) ==
+LogRet(p, res) ==
     /\ pc' = [pc EXCEPT ![p] = "idle"]
     /\ Advance(p)
     /\ LET st2 == [st EXCEPT ![CurId(p)] = IF res = "ok" THEN "held" ELSE "x"]
            h2 == {j \in Ids : st2[j] = "held"}
        IN PRet(CurId(p), res, 0, Cardinality(h2))
+
+\* the call has decided; Fine: the goroutine parks at the end of the critical section, the return is
+\* logged by a later step (Ret)
+Return(p, res) ==
+    IF Fine
+    THEN /\ pc' = [pc EXCEPT ![p] = "ret"]
+         /\ rres' = [rres EXCEPT ![p] = res]
+         /\ UNCHANGED <<ip, pvars>>
+    ELSE LogRet(p, res) /\ UNCHANGED rres
+
+Ret(p) ==
+    /\ Gate
+    /\ pc[p] = "ret"
+    /\ LogRet(p, rres[p])
+    /\ rres' = [rres EXCEPT ![p] = ""]
+    /\ UNCHANGED <<locked, wch, status, ctxc, relid>>
 
 \* the two critical sections of Lock have the same body (mutex.go:31-43, 73-86)
 TryAcquire(p, from) ==
@@ -80,8 +98,8 @@ TryAcquire(p, from) ==
     /\ pc[p] = from
     /\ IF locked
        THEN /\ wch' = GetCh(wch, p)
-            /\ pc' = [pc EXCEPT ![p] = "sel"]
-            /\ UNCHANGED <<locked, status, ip, pvars>>
+            /\ pc' = [pc EXCEPT ![p] = IF Fine THEN "presel" ELSE "sel"]
+            /\ UNCHANGED <<locked, status, ip, rres, pvars>>
        ELSE \* CompareAndSwap(0,1) always succeeds here: status is 0 while the call is pending
             /\ locked' = TRUE
             /\ status' = [status EXCEPT ![CurId(p)] = 1]
@@ -92,10 +110,19 @@ TryAcquire(p, from) ==
 CS1(p) == TryAcquire(p, "cs1")
 CS2(p) == TryAcquire(p, "cs2")
 
+\* Fine: the waiter was parked between the critical section in which it obtained its wait channel
+\* and its select; broadcasts and a cancellation may have landed in between, the select is then
+\* entered with several cases ready (Wake and WakeCtx both enabled)
+EnterSel(p) ==
+    /\ Gate
+    /\ pc[p] = "presel"
+    /\ pc' = [pc EXCEPT ![p] = "sel"]
+    /\ UNCHANGED <<locked, wch, ip, status, ctxc, relid, rres, pvars>>
+
 Wake(p) ==
     /\ pc[p] = "sel" /\ wch[p] = "closed"
     /\ pc' = [pc EXCEPT ![p] = "cs2"]
-    /\ UNCHANGED <<locked, wch, ip, status, ctxc, relid, pvars>>
+    /\ UNCHANGED <<locked, wch, ip, status, ctxc, relid, rres, pvars>>
 
 \* select: ctx.Done -> release(): pre = status.Swap(2) = 0 # 1 -> no critical section; return Canceled
 WakeCtx(p) ==
@@ -109,11 +136,23 @@ RelCS(p) ==
     /\ pc[p] = "relcs"
     /\ locked' = FALSE
     /\ wch' = Bcast(wch)
+    /\ IF Fine
+       THEN pc' = [pc EXCEPT ![p] = "relret"] /\ UNCHANGED <<ip, relid, pvars>>
+       ELSE /\ pc' = [pc EXCEPT ![p] = "idle"]
+            /\ Advance(p)
+            /\ relid' = [relid EXCEPT ![p] = 0]
+            /\ PRelRet(relid[p])
+    /\ UNCHANGED <<status, ctxc, rres>>
+
+\* Fine: the release function returns in a later step than its critical section
+RelRet(p) ==
+    /\ Gate
+    /\ pc[p] = "relret"
     /\ pc' = [pc EXCEPT ![p] = "idle"]
     /\ Advance(p)
     /\ relid' = [relid EXCEPT ![p] = 0]
     /\ PRelRet(relid[p])
-    /\ UNCHANGED <<status, ctxc>>
+    /\ UNCHANGED <<locked, wch, status, ctxc, rres>>
 
 TryCS(p) ==
     /\ Gate
@@ -125,23 +164,24 @@ TryCS(p) ==
 
 Cancel(p) ==
     /\ Gate
-    /\ pc[p] \in {"cs1", "sel", "cs2"} /\ Op(p).op = "lock" /\ Op(p).c /\ ~ctxc[p]
+    /\ pc[p] \in {"cs1", "presel", "sel", "cs2", "ret"} /\ Op(p).op = "lock" /\ Op(p).c /\ ~ctxc[p]
     /\ ctxc' = [ctxc EXCEPT ![p] = TRUE]
     /\ PCancel(CurId(p))
-    /\ UNCHANGED <<locked, wch, pc, ip, status, relid>>
+    /\ UNCHANGED <<locked, wch, pc, ip, status, relid, rres>>
 
 Next ==
     \E p \in Procs :
         \/ Call(p) \/ Cancel(p)
         \/ CS1(p) \/ CS2(p) \/ RelCS(p) \/ TryCS(p)
         \/ Wake(p) \/ WakeCtx(p)
+        \/ EnterSel(p) \/ Ret(p) \/ RelRet(p)
 
 Spec == Init /\ [][Next]_vars
 
 LibQuiet == (\A p \in Procs : pc[p] \in {"idle", "sel"}) /\ ~WakeAny
 
 TypeOK == locked \in BOOLEAN /\ \A p \in Procs : wch[p] \in {"none", "cur", "closed"}
-Agree == locked = (Held # {} \/ \E p \in Procs : pc[p] = "relcs")
+Agree == locked = (Held # {} \/ \E p \in Procs : pc[p] = "relcs" \/ (pc[p] = "ret" /\ rres[p] = "ok"))
 QuietInv == LibQuiet => QuietOK(BlockedIds)
 NoResidue == (\A p \in Procs : pc[p] = "idle") /\ Held = {} => ~locked
 ModelSafe == Safe_C01 /\ Safe_C02 /\ NoHarnessError
